@@ -4,7 +4,7 @@ texts and run on the real pipeline (scanner -> parser -> astcomp -> ir -> ircomp
 Python here is representation only: it builds abstract syntax trees (no evaluation), writes them as JSON for TLC,
 renders them as Lua source in several spellings, and compares what the real code did with what the specification
 computed, for equality (reference values up to a renaming by first appearance)."""
-import json, os, re, sys, random, itertools, copy
+import json, os, re, sys, random, itertools, copy, time
 sys.path.insert(0, os.path.join(os.path.dirname(os.path.abspath(__file__)), "..", "lib"))
 from vlib import *
 
@@ -976,6 +976,7 @@ META_OPS = ["+", "-", "*", "//", "%", "..", "==", "~=", "<", "<=", ">", ">="]
 META_EV = {"+": "__add", "-": "__sub", "*": "__mul", "//": "__idiv", "%": "__mod", "..": "__concat", "==": "__eq", "~=": "__eq",
            "<": "__lt", "<=": "__le", ">": "__lt", ">=": "__le"}
 META_OPERANDS = ["int", "numstr", "str", "nil", "true", "plain", "A", "B"]
+META_OPERANDS_BIG = META_OPERANDS + ["false", "func", "negint"]
 
 
 def _meta_prelude(ev, unary=False):
@@ -994,23 +995,25 @@ def _meta_prelude(ev, unary=False):
 
 def _meta_operand(name):
     return {"int": lambda: Int(3), "numstr": lambda: Str("10"), "str": lambda: Str("abc"), "nil": lambda: Nil(), "true": lambda: TRUE(),
-            "plain": lambda: V("P"), "A": lambda: V("A"), "B": lambda: V("B")}[name]()
+            "plain": lambda: V("P"), "A": lambda: V("A"), "B": lambda: V("B"), "false": lambda: FALSE(), "func": lambda: V("kd"),
+            "negint": lambda: Int(-7)}[name]()
 
 
-def fam_metaops():
+def fam_metaops(big=False):
     """(f1) every binary / unary operator x every pair of operand kinds, with and without handlers"""
     out = []
+    operands = META_OPERANDS_BIG if big else META_OPERANDS
     for op in META_OPS:
-        for l, r in itertools.product(META_OPERANDS, repeat=2):
+        for l, r in itertools.product(operands, repeat=2):
             prog = _meta_prelude(META_EV[op]) + [Local(["P"], [Table()]),
                     Local(["L", "R"], [_meta_operand(l), _meta_operand(r)]),
                     Emit(Call(V("pcall"), Func([], [Return(Bin(op, V("L"), V("R")))])))]
-            if l in ("int", "numstr", "str") and r in ("int", "numstr", "str"):
+            if l in ("int", "numstr", "str", "negint") and r in ("int", "numstr", "str", "negint"):
                 # also with the literals in place (constant operands take other paths in a compiler)
                 prog += [Emit(Call(V("pcall"), Func([], [Return(Bin(op, _meta_operand(l), _meta_operand(r)))])))]
             out.append(("metaop", Block(prog)))
     for op, ev in (("-", "__unm"), ("#", "__len")):
-        for l in META_OPERANDS:
+        for l in operands:
             mk = (lambda e: Neg(e)) if op == "-" else (lambda e: LenOp(e))
             prog = _meta_prelude(ev, unary=True) + [Local(["P"], [Table()]), Local(["L"], [_meta_operand(l)]),
                     Emit(Call(V("pcall"), Func([], [Return(mk(V("L")))])))]
@@ -1094,7 +1097,100 @@ def fam_metaindex():
     return out
 
 
-FAMILIES = ["closure_loops", "adjust", "varargs", "control", "methods", "metaops", "metaindex"]
+
+
+
+def fam_fornum():
+    """numeric for: start x limit x step (the loop runs while the variable has not passed the limit; the limit and the
+    step are evaluated once; zero iterations when the start is already beyond the limit)"""
+    out = []
+    for start, limit, step in itertools.product([1, 3, -2], [0, 1, 3, 4], [None, 1, 2, -1, -3]):
+        body = [Emit(V("i")), Assign([V("n")], [Int(100)]), Assign([V("c")], [ADD(V("c"), Int(1))])]
+        prog = [Local(["n", "c"], [Int(limit), Int(0)]), ForNum("i", Int(start), V("n"), Int(step) if step is not None else None, body), Emit(V("c"), V("n"))]
+        out.append(("fornum", Block(prog)))
+    return out
+
+
+def fam_logic():
+    """and / or: value semantics, short circuit, and adjustment of the operands to one value"""
+    out = []
+    ops = {"nil": lambda: Nil(), "false": lambda: FALSE(), "zero": lambda: Int(0), "empty": lambda: Str(""), "multi": lambda: Call(V("f"), Str("m")),
+           "none": lambda: Call(V("z"), Str("z")), "vararg": lambda: Va()}
+    for l, r, op, ctx in itertools.product(sorted(ops), sorted(ops), ["and", "or"], ["args", "locals", "cond"]):
+        e = lambda: (And if op == "and" else Or)(ops[l](), ops[r]())
+        if l in ("multi", "none") and r in ("multi", "none"):
+            pass        # both calls report themselves; the left one runs first by the definition of the operator
+        body = {"args": lambda: [CallStat(Call(V("show"), e()))], "locals": lambda: [Local(["a", "b"], [e()]), Emit(V("a"), V("b"))],
+                "cond": lambda: [If(e(), [Emit(Str("then"))], [Emit(Str("else"))]), While(Not(e()), [Emit(Str("w")), Break()])]}[ctx]()
+        prog = [LocalFunc("f", ["tag"], [Emit(V("tag")), Return(Int(1), Int(2))]), LocalFunc("z", ["tag"], [Emit(V("tag"))]),
+                LocalFunc("show", [], [Emit(Call(V("select"), Str("#"), Va()), Va())], True),
+                LocalFunc("run", [], body, True), CallStat(Call(V("run"), Int(7), Int(8))), CallStat(Call(V("run"))), CallStat(Call(V("run"), FALSE()))]
+        out.append(("logic", Block(prog)))
+    return out
+
+
+def fam_errors():
+    """error values and runtime errors through protected calls: what is raised x where it is raised from"""
+    out = []
+    S = Str
+    raisers = {
+        "int": lambda: [CallStat(Call(V("error"), Int(42)))],
+        "str0": lambda: [CallStat(Call(V("error"), S("msg"), Int(0)))],
+        "strpos": lambda: [CallStat(Call(V("error"), S("msg")))],
+        "table": lambda: [CallStat(Call(V("error"), V("E")))],
+        "nil": lambda: [CallStat(Call(V("error"), Nil()))],
+        "noarg": lambda: [CallStat(Call(V("error")))],
+        "bool": lambda: [CallStat(Call(V("error"), FALSE()))],
+        "assert-v": lambda: [CallStat(Call(V("assert"), FALSE(), V("E")))],
+        "assert-nomsg": lambda: [CallStat(Call(V("assert"), Nil()))],
+        "assert-ok": lambda: [Return(Call(V("assert"), Int(1), Int(2), Int(3)))],
+        "arith": lambda: [Return(ADD(V("E"), Int(1)))],
+        "arith-nil": lambda: [Local(["x"]), Return(MUL(V("x"), Int(2)))],
+        "concat": lambda: [Return(Bin("..", S("a"), Table()))],
+        "compare": lambda: [Return(Bin("<", Int(1), S("2")))],
+        "compare-tables": lambda: [Return(Bin("<=", Table(), Table()))],
+        "call-nil": lambda: [Local(["x"]), CallStat(Call(V("x")))],
+        "call-field": lambda: [CallStat(Call(Dot(V("E"), "nothing")))],
+        "method-missing": lambda: [CallStat(Method(V("E"), "nothing"))],
+        "index-nil": lambda: [Local(["x"]), Return(Dot(V("x"), "f"))],
+        "index-deep": lambda: [Return(Dot(Dot(V("E"), "a"), "b"))],
+        "newindex-nil": lambda: [Local(["x"]), Assign([Dot(V("x"), "f")], [Int(1)])],
+        "nil-key": lambda: [Assign([Index(V("E"), Nil())], [Int(1)])],
+        "len": lambda: [Return(LenOp(Int(5)))],
+        "unm": lambda: [Return(Neg(Table()))],
+        "protected": lambda: [CallStat(Call(V("setmetatable"), Call(V("setmetatable"), Table(), Table(Named("__metatable", Int(1)))), Table()))],
+        "none": lambda: [Return(S("fine"), Int(2))],
+    }
+    wrappers = ["direct", "nested", "handler", "loop", "rethrow", "tail", "inner-caught", "pcall-pcall"]
+    for rn, wr in itertools.product(sorted(raisers), wrappers):
+        pre = [Local(["E"], [Table(Named("tag", S("E")))]), Local(["state"], [Int(0)]),
+               LocalFunc("raise", [], [Assign([V("state")], [ADD(V("state"), Int(1))])] + raisers[rn]())]
+        report = lambda call: [Local(["r"], [Table(call)]),
+                               Emit(Index(V("r"), Int(1)), Call(V("type"), Index(V("r"), Int(2))), Index(V("r"), Int(2)), Index(V("r"), Int(3)), Index(V("r"), Int(4)), V("state"))]
+        if wr == "direct":
+            body = report(Call(V("pcall"), V("raise")))
+        elif wr == "nested":
+            body = [LocalFunc("mid", ["a"], [Local(["x", "y"], [Call(V("raise"))]), Emit(S("after"), V("x")), Return(V("x"), V("y"), V("a"))])] + \
+                   report(Call(V("pcall"), V("mid"), Int(5)))
+        elif wr == "handler":
+            body = [Local(["t"], [Call(V("setmetatable"), Table(), Table(Named("__index", Func(["_", "k"], [Return(Call(V("raise")))]))))])] + \
+                   report(Call(V("pcall"), Func([], [Return(Dot(V("t"), "missing"))])))
+        elif wr == "loop":
+            body = report(Call(V("pcall"), Func([], [ForNum("i", Int(1), Int(3), None, [Emit(S("it"), V("i")), If(EQ(V("i"), Int(2)), [CallStat(Call(V("raise")))])]), Return(S("done"))])))
+        elif wr == "rethrow":
+            body = report(Call(V("pcall"), Func([], [Local(["ok", "e"], [Call(V("pcall"), V("raise"))]), Emit(S("inner"), V("ok")),
+                                                     If(Not(V("ok")), [CallStat(Call(V("error"), V("e"), Int(0)))]), Return(S("no error"))])))
+        elif wr == "tail":
+            body = report(Call(V("pcall"), Func([], [Return(Call(V("raise")))])))
+        elif wr == "inner-caught":
+            body = report(Call(V("pcall"), Func([], [Local(["ok"], [Call(V("pcall"), V("raise"))]), Emit(S("inner"), V("ok")), Return(S("outer fine"), V("ok"))])))
+        else:
+            body = report(Call(V("pcall"), V("pcall"), V("raise")))
+        out.append(("errors", Block(pre + body + [Emit(S("end"), V("state"))])))
+    # an error that reaches the host
+    for rn in ("int", "str0", "table", "nil", "arith", "call-nil"):
+        out.append(("errors", Block([Local(["E"], [Table()]), Emit(S("before"))] + raisers[rn]() + [])))
+    return out
 
 
 # --------------------------------------------------------------------------
@@ -1259,70 +1355,140 @@ class RandGen:
     def stmt(self, depth):
         r = self.r
         self.spend()
-        c = r.random()
         ints = self.visible("int")
-        if c < 0.16 or not ints:
+        pure = self.pure_ctx > 0
+        opts = [("local", 16 if ints else 60)]
+        if ints:
+            opts += [("assign", 12), ("if", 10 if depth < 4 else 0), ("loop", 12 if depth < 3 else 0), ("do", 3 if depth < 3 else 0)]
+            if not pure:
+                opts += [("emit", 16), ("funcdef", 9 if depth < 3 else 0), ("table", 9), ("exit", 6 if self.loops else 0),
+                         ("pcall", 5 if depth < 3 else 0), ("callstat", 4), ("return", 3 if self.infn and depth < 4 else 0),
+                         ("template", 7 if depth < 2 else 0), ("fnlist", 5)]
+        c = r.choices([o for o, _ in opts], [w for _, w in opts])[0]
+        if c == "local":
             k = r.choice([1, 1, 1, 2, 3])
             names = [self.fresh("v") for _ in range(k)]
             if len(set(names)) < k:
                 names = names[:1]
-            ic = self.impure_call() if (r.random() < 0.25 and not self.pure_ctx) else None
+            ic = self.impure_call() if (r.random() < 0.25 and not pure) else None
             exprs = [ic[0]] if ic else [self.int_expr() for _ in range(r.choice([len(names), len(names), 1]))]
-            for nm in names[:len(exprs)] if not ic else names[:max(1, min(len(names), ic[1][3]))]:
-                pass
             st = Local(names, exprs)
-            # a name holds an integer only if a value is certain to reach it; the others are nil: keep them out of arithmetic
+            # a name holds an integer only if a value is certain to reach it; the others are nil: kept out of arithmetic
             certain = len(exprs) if not ic else ic[1][3]
             for j, nm in enumerate(names):
                 self.declare(nm, ("int",) if j < certain else ("nilv",))
             return [st]
-        if c < 0.28:
-            if self.pure_ctx:
-                own = [n for n in self.scopes[-1] if self.scopes[-1][n][0] == "int"]
-                if not own:
-                    return [Emit(Str("p"))] if False else []
-                return [Assign([V(r.choice(own))], [self.int_expr()])]
-            k = r.choice([1, 1, 2])
-            tg = r.sample(ints, min(k, len(ints)))
+        if c == "assign":
+            if pure:
+                own = [n for sc in self.scopes[1:] for n in sc if sc[n][0] == "int"]
+                return [Assign([V(r.choice(own))], [self.int_expr()])] if own else []
+            tg = r.sample(ints, min(r.choice([1, 1, 2, 3]), len(ints)))
             ic = self.impure_call() if r.random() < 0.2 else None
             if ic and ic[1][3] >= len(tg):
                 return [Assign([V(t) for t in tg], [ic[0]])]
             return [Assign([V(t) for t in tg], [self.int_expr() for _ in tg])]
-        if c < 0.40:
-            if self.pure_ctx:
-                return []
+        if c == "emit":
             ic = self.impure_call() if r.random() < 0.3 else None
             if ic:
-                return [Emit(ic[0])]
+                return [Emit(Paren(ic[0]))] if r.random() < 0.2 else [Emit(ic[0])]
             return [Emit(*[self.value_expr() for _ in range(r.randrange(1, 4))])]
-        if c < 0.50 and depth < 4:
+        if c == "if":
             parts = [self.bool_expr(), self.block(depth + 1)]
             while r.random() < 0.3:
                 parts += [self.bool_expr(), self.block(depth + 1)]
             if r.random() < 0.5:
                 parts.append(self.block(depth + 1))
             return [If(*parts)]
-        if c < 0.62 and depth < 3:
+        if c == "loop":
             return self.loop(depth)
-        if c < 0.72 and depth < 3 and not self.pure_ctx:
+        if c == "funcdef":
             return self.funcdef(depth)
-        if c < 0.80 and not self.pure_ctx:
+        if c == "table":
             return self.tablestmt()
-        if c < 0.84 and depth < 3:
+        if c == "do":
             return [Do(self.block(depth + 1))]
-        if c < 0.88 and self.loops and not self.pure_ctx:
+        if c == "exit":
             lab = self.loops[-1]
             ex = [Break()] if (lab is None or r.random() < 0.5) else [Goto(lab)]
             return [If(self.bool_expr(), ex)]
-        if c < 0.93 and depth < 3 and not self.pure_ctx:
+        if c == "pcall":
             return self.pcallstmt(depth)
-        if c < 0.96 and not self.pure_ctx:
+        if c == "callstat":
             ic = self.impure_call()
-            if ic:
-                return [CallStat(ic[0])]
-        if self.infn and depth < 4 and not self.pure_ctx:
+            return [CallStat(ic[0])] if ic else []
+        if c == "return":
             return [If(self.bool_expr(), [Return(*[self.int_expr() for _ in range(self.infn_nret[-1])])])]
+        if c == "template":
+            return self.template()
+        if c == "fnlist":
+            return self.fnlist()
         return []
+
+    def fnlist(self):
+        """closures stored in a table and called later (each call is the only call of its statement)"""
+        r = self.r
+        fl = self.visible("fnlist")
+        ints = self.visible("int")
+        if not fl or r.random() < 0.3:
+            nm = self.fresh("fl")
+            self.declare(nm, ("fnlist",))
+            return [Local([nm], [Table()])]
+        t = r.choice(fl)
+        if r.random() < 0.6 and ints:
+            x = r.choice(ints)
+            body = [Return(self.int_expr(1))] if r.random() < 0.5 else [Assign([V(x)], [ADD(V(x), Int(1))]), Return(V(x))]
+            return [PUSH(t, Func([], body))]
+        return [ForIn(["_", "g"], [Call(V("ipairs"), V(t))], [Emit(Call(V("g")))])]
+
+    def template(self):
+        """small idioms with fixed shape and random parameters"""
+        r = self.r
+        n = self.counter = self.counter + 1
+        c = r.randrange(7)
+        ints = self.visible("int")
+        x = r.choice(ints)
+        if c == 0:      # bounded recursion, ordinary and through a tail call
+            f = "rec%d" % n
+            return [LocalFunc(f, ["n", "acc"], [If(Bin("<=", V("n"), Int(0)), [Return(V("acc"))]),
+                                                Return(Call(V(f), Bin("-", V("n"), Int(1)), ADD(V("acc"), V("n"))))] if r.random() < 0.5 else
+                              [If(Bin("<=", V("n"), Int(0)), [Return(V("acc"))]), Return(ADD(V("n"), Paren(Call(V(f), Bin("-", V("n"), Int(1)), V("acc")))))]),
+                    Emit(Call(V(f), Int(r.randrange(0, 5)), V(x)))]
+        if c == 1:      # a counter: two closures over one variable
+            g, st_ = "cnt%d" % n, "get%d" % n
+            return [Local([g, st_]), Do([Local(["c"], [V(x)]), Assign([V(g)], [Func([], [Assign([V("c")], [ADD(V("c"), Int(1))]), Return(V("c"))])]),
+                                        Assign([V(st_)], [Func([], [Return(V("c"))])])]),
+                    CallStat(Call(V(g))), Emit(Call(V(g))), Emit(Call(V(st_)))]
+        if c == 2:      # variadic forwarding
+            f = "va%d" % n
+            args = [self.int_expr(1) for _ in range(r.randrange(0, 4))]
+            return [LocalFunc(f, ["a"], [Local(["b", "c"], [Va()]), Return(Call(V("select"), Str("#"), Va()), V("a"), V("b"), V("c"), Va())], True),
+                    Emit(Call(V(f), *args)), Emit(Paren(Call(V(f), *copy.deepcopy(args))))]
+        if c == 3:      # an object with inherited methods
+            cls, o = "Cls%d" % n, "ob%d" % n
+            return [Local([cls], [Table()]), Assign([Dot(V(cls), "__index")], [V(cls)]),
+                    Assign([Dot(V(cls), "bump")], [Func(["self", "d"], [Assign([Dot(V("self"), "n")], [ADD(Dot(V("self"), "n"), V("d"))]), Return(V("self"))])]),
+                    Assign([Dot(V(cls), "get")], [Func(["self"], [Return(Dot(V("self"), "n"))])]),
+                    Local([o], [Call(V("setmetatable"), Table(Named("n", V(x))), V(cls))]),
+                    Emit(Method(Method(Method(V(o), "bump", self.int_expr(1)), "bump", Int(1)), "get")), Emit(Call(V("rawget"), V(o), Str("get")), Dot(V(o), "n"))]
+        if c == 4:      # operators through metamethods, one dispatch per statement
+            mt, a = "mt%d" % n, "ma%d" % n
+            ev = r.choice(["__add", "__sub", "__concat", "__lt", "__le", "__eq", "__mul", "__mod", "__idiv"])
+            op = {"__add": "+", "__sub": "-", "__concat": "..", "__lt": "<", "__le": "<=", "__eq": "==", "__mul": "*", "__mod": "%", "__idiv": "//"}[ev]
+            other = r.choice([lambda: V(a), lambda: Int(2), lambda: Str("s"), lambda: Table()]) if ev != "__eq" else (lambda: Call(V("setmetatable"), Table(), V(mt)))
+            return [Local([mt], [Table(Named(ev, Func(["p", "q"], [Emit(Str(ev), Call(V("type"), V("p")), Call(V("type"), V("q"))), Return(V(x), Int(1))])))]),
+                    Local([a], [Call(V("setmetatable"), Table(), V(mt))]),
+                    Emit(Call(V("pcall"), Func([], [Return(Bin(op, V(a), other()))]))),
+                    Emit(Call(V("pcall"), Func([], [Return(Bin(op, other(), V(a)))])))]
+        if c == 5:      # a loop made of goto
+            i, lab = "g%d" % n, "L%d" % n
+            return [Local([i], [Int(0)]), Label(lab), Assign([V(i)], [ADD(V(i), Int(1))]), Assign([V(x)], [ADD(V(x), V(i))]),
+                    If(Bin("<", V(i), Int(r.randrange(1, 4))), [Goto(lab)]), Emit(V(i), V(x))]
+        # default values through __index and interception through __newindex
+        t, log = "dt%d" % n, "lg%d" % n
+        return [Local([log], [Table()]),
+                Local([t], [Call(V("setmetatable"), Table(Named("a", V(x))), Table(Named("__index", Func(["_", "k"], [Return(Bin("..", V("k"), Str("?")))])),
+                                                                                 Named("__newindex", Func(["tt", "k", "v"], [CallStat(Call(V("rawset"), V("tt"), V("k"), ADD(V("v"), Int(1))))]))))]),
+                Assign([Dot(V(t), "a")], [Int(5)]), Assign([Dot(V(t), "z")], [Int(5)]), Emit(Dot(V(t), "a"), Dot(V(t), "z"), Dot(V(t), "q"))]
 
     def loop(self, depth):
         r = self.r
@@ -1343,6 +1509,8 @@ class RandGen:
         elif kind == "forin":
             seqs = self.visible("seq")
             src = V(r.choice(seqs)) if seqs and r.random() < 0.6 else Table(*[Int(r.randrange(9)) for _ in range(r.randrange(0, 4))])
+            if src["k"] == "name":
+                self.declare(src["s"], ("frozen",))     # the traversed table is not modified inside the loop
             i, v = self.fresh("k"), self.fresh("e")
             if i == v:
                 v = v + "e"
@@ -1471,3 +1639,119 @@ def random_program(seed_, budget):
         body += g.stmt(0)
     body.append(Emit(*[V(n) for n in g.visible("int")][:6]))
     return Block(body)
+
+
+# --------------------------------------------------------------------------
+# the check
+
+def families(tier):
+    big = tier == "thorough"
+    fams = [("closure_loops", fam_closure_loops()), ("adjust", fam_adjust(3 if big else 2)), ("varargs", fam_varargs()),
+            ("control", fam_control()), ("methods", fam_methods()), ("metaops", fam_metaops(big)), ("metaindex", fam_metaindex()),
+            ("fornum", fam_fornum()), ("logic", fam_logic()), ("errors", fam_errors())]
+    # the sizes follow from the grammar definitions (products of the alternatives, minus the excluded combinations)
+    nat = 8
+    no = len(META_OPERANDS_BIG if big else META_OPERANDS)
+    expected = {
+        "closure_loops": 7 * 3 * 3 * 3 * 4 - 4 * 2 * 3 * 4,            # minus: for-loop kinds x {incr, pair} on the loop variable
+        "adjust": sum(nat ** n for n in range(1, (3 if big else 2) + 1)) * 8 + 7,
+        "varargs": 3 * 7 * 19,
+        "control": 5 * (4 * 6 + 3 * 6 * 2) - 4,                        # minus: break with no enclosing loop
+        "methods": 4 * 5 * 7 * 5,
+        "metaops": 12 * no * no + 2 * no,
+        "metaindex": 18 + 12 + 8 + 2 + 24 + 1 + 3,
+        "fornum": 3 * 4 * 5, "logic": 7 * 7 * 2 * 3, "errors": 26 * 8 + 6,
+    }
+    for name, items in fams:
+        if len(items) != expected[name]:
+            raise Infra("enumeration %s produced %d programs, the grammar defines %d" % (name, len(items), expected[name]))
+    return fams
+
+
+TIERS = {
+    "quick": dict(cfg="LuaCoreQ.cfg", K=2, nrandom=1500, budget=40),
+    "thorough": dict(cfg="LuaCoreT.cfg", K=4, nrandom=20000, budget=90),
+}
+
+
+def run(prop, tier, corrupt=False, workers=None):
+    rep = Report(prop, tier, "model_checking")
+    cov = rep.cov
+    par = TIERS[tier]
+    K = par["K"]
+    drv = build_driver()
+    t0 = time.time()
+    progs = []          # (id, cls, ast)
+    enumerated = {}
+    for name, items in families(tier):
+        enumerated[name] = len(items)
+        for cls, ast in items:
+            progs.append((len(progs) + 1, cls, ast))
+    nenum = len(progs)
+    base = seed() * 1000003
+    for j in range(par["nrandom"]):
+        progs.append((len(progs) + 1, "random", random_program(base + j, par["budget"])))
+    log("[%s] %d programs (%d enumerated, %d random) generated in %.1fs" % (prop, len(progs), nenum, par["nrandom"], time.time() - t0))
+    workers = workers or int(os.environ.get("VERIF_WORKERS", "0")) or None
+    res, tlc = run_spec([(pid, ast) for pid, _, ast in progs], par["cfg"], workers=workers, timeout=3000)
+    if len(res) != len(progs):
+        raise Infra("LuaCore judged %d of %d programs:\n%s" % (len(res), len(progs), tlc.stdout[-2000:]))
+    log("[%s] TLC: %d states in %.1fs" % (prop, tlc.distinct, tlc.wall))
+    cov.update(states=tlc.distinct, transitions=tlc.generated, tlc_wall_s=round(tlc.wall, 1), programs=len(progs),
+               enumerated=enumerated, random_programs=par["nrandom"], renderings_per_program=K, exhaustive=True,
+               exhaustive_note="the seven sub-grammars are enumerated completely (sizes checked against the grammar definitions); random programs are samples")
+    # programs the specification does not decide are generator errors, never verdicts
+    undecided = {}
+    judged = []
+    for pid, cls, ast in progs:
+        l = res[pid]
+        if l["fin"] in ("undef", "bound"):
+            undecided.setdefault(cls, []).append((l["fin"], l["why"], pid))
+        else:
+            judged.append((pid, cls, ast, l))
+    for cls, lst in undecided.items():
+        if cls != "random":
+            raise Infra("enumerated program %d of family %s is outside the specification (%s %s):\n%s"
+                        % (lst[0][2], cls, lst[0][0], lst[0][1], render(progs[lst[0][2] - 1][2])))
+        if len(lst) > 0.05 * par["nrandom"]:
+            raise Infra("%d random programs outside the specification: %r" % (len(lst), lst[:5]))
+    cov["random_programs_undecided"] = len(undecided.get("random", []))
+    cov["avg_steps"] = round(sum(l["steps"] for _, _, _, l in judged) / max(1, len(judged)), 1)
+    cov["avg_nodes_random"] = round(sum(size(a) for _, c, a, _ in judged if c == "random") / max(1, par["nrandom"]), 1)
+    cov["outcomes"] = {}
+    cov["events_expected"] = 0
+    cases = []
+    for pid, cls, ast, l in judged:
+        for j, src in enumerate(renderings(ast, K, pid)):
+            cases.append({"id": pid * 8 + j, "src": src, "timeout": 20000, "maxev": 100000})
+    t1 = time.time()
+    outs = run_lua_cases(drv, cases)
+    log("[%s] %d texts run in %.1fs" % (prop, len(cases), time.time() - t1))
+    cov["texts_run"] = len(cases)
+    cov["traces_validated_against_impl"] = len(cases)
+    cov["per_class"] = {}
+    first = True
+    for pid, cls, ast, l in judged:
+        exp = expectation(l)
+        if corrupt and first and exp["events"] and exp["events"][0] and isinstance(exp["events"][0][0], dict) and "i" in exp["events"][0][0]:
+            exp["events"][0][0] = {"i": str(int(exp["events"][0][0]["i"]) + 1)}      # self-test of the binding
+            first = False
+        cov["per_class"][cls] = cov["per_class"].get(cls, 0) + 1
+        cov["outcomes"][l["fin"]] = cov["outcomes"].get(l["fin"], 0) + 1
+        cov["events_expected"] += len(exp["events"])
+        whys = [judge(exp, outs[pid * 8 + j]) for j in range(K)]
+        bad = [j for j, w in enumerate(whys) if w]
+        if bad:
+            w = whys[bad[0]]
+            sig = {"cls": cls, "kind": w["kind"], "shape": "+".join(sorted(features(ast))), "renderings": "all" if len(bad) == K else "some"}
+            rep.violation(sig, {"cmd": "lua-run", "src": cases_src(ast, K, pid, bad[0]), "minimal_spelling": render(ast), "expected": exp,
+                                "observed": outs[pid * 8 + bad[0]], "why": w, "mismatching_renderings": bad})
+        elif cls != "random" or len(l["ev"]) >= 4:
+            rep.sample({"class": cls, "program": render(ast), "expected_events": exp["events"][:6], "outcome": l["fin"]}, cap=4)
+    rep.assumptions += ["runtime errors are compared by occurrence and by being a string, not by wording or position",
+                        "identities of closures of one function expression are not compared (manual 3.4.4)"]
+    return rep.finish()
+
+
+def cases_src(ast, K, pid, j):
+    return renderings(ast, K, pid)[j]
